@@ -1,4 +1,5 @@
 import Driver.StoreCmd
+import Driver.McCmd
 open Driver
 
 partial def storeLoop (h : IO.FS.Stream) (out : IO.FS.Stream) (st : StoreSt) : IO Unit := do
@@ -8,9 +9,17 @@ partial def storeLoop (h : IO.FS.Stream) (out : IO.FS.Stream) (st : StoreSt) : I
   for o in outs do out.putStrLn o
   storeLoop h out st'
 
+partial def mcLoop (h : IO.FS.Stream) (out : IO.FS.Stream) (st : McSt) : IO Unit := do
+  let line ← h.getLine
+  if line.isEmpty then return ()
+  let (st', outs) := mcLine st line
+  for o in outs do out.putStrLn o
+  mcLoop h out st'
+
 def main (args : List String) : IO UInt32 := do
   let stdin ← IO.getStdin
   let stdout ← IO.getStdout
   match args with
   | ["store"] => storeLoop stdin stdout {}; return 0
+  | ["mc"] => mcLoop stdin stdout {}; return 0
   | _ => IO.eprintln "usage: asdriver store|mc|sim|pred|..."; return 2
